@@ -30,6 +30,8 @@ type gfFn struct {
 	recvMut  bool
 	results  []*gfT
 	notes    map[string]bool
+	ascii    map[types.Object]bool // value variables of ASCII-compared string ranges
+	owned    map[types.Object]bool // session 5: local pointers to a fresh struct held by nobody else (gofn_s5.go)
 }
 
 func (f *gfFn) at(n ast.Node) string { return f.leanName + " (" + f.pk.pos(n) + ")" }
@@ -102,6 +104,40 @@ func (f *gfFn) typeOf(e ast.Expr) *gfT {
 			}
 			if f.pkgCall(c, "fmt", "Errorf") || f.pkgCall(c, "errors", "New") {
 				return &gfT{k: kErr}
+			}
+			if x := gfExtFind(f, c); x != nil { // gofn_c13.go: further library members with an exact Lean reading
+				return x.result
+			}
+			if ftv, ok := f.pk.info.Types[c.Fun]; ok && ftv.IsType() { // a conversion whose operand the checker could not type
+				return gfTypeOf(ftv.Type, f.at(e))
+			}
+			if t := f.typeS5(c); t != nil { // session 5: standard-library members read by GoSemS5.lean
+				return t
+			}
+		}
+		// session 5: expressions over a variable typed by the translator (x := <standard-library call>)
+		switch y := e.(type) {
+		case *ast.CallExpr:
+			if f.builtin(y, "len") && len(y.Args) == 1 {
+				if at := f.typeOf(y.Args[0]); at.k == kBytes || at.k == kSlice {
+					return &gfT{k: kInt}
+				}
+			}
+		case *ast.BinaryExpr:
+			switch y.Op {
+			case token.LAND, token.LOR, token.EQL, token.NEQ, token.LSS, token.LEQ, token.GTR, token.GEQ:
+				return &gfT{k: kBool} // operands typed by the translator (library calls of stand-in packages)
+			}
+		case *ast.UnaryExpr:
+			if y.Op == token.NOT {
+				return &gfT{k: kBool}
+			}
+		case *ast.IndexExpr:
+			switch xt := f.typeOf(y.X); xt.k {
+			case kSlice:
+				return xt.elem
+			case kBytes:
+				return &gfT{k: kU8}
 			}
 		}
 		die("%s: expression `%s` has no usable type", f.at(e), c15Print(f.pk.fset, e))
@@ -434,6 +470,9 @@ func (f *gfFn) call(b *gfBuf, c *ast.CallExpr) string {
 		case from.k == kBV && to.k == kBV && from.bits < to.bits:
 			return fmt.Sprintf("((%s).setWidth %d)", a, to.bits)
 		}
+		if s, ok := f.convS5(from, to, a); ok {
+			return s
+		}
 		die("%s: conversion %s -> %s outside the subset", f.at(c), from.lean(), to.lean())
 	}
 	if f.builtin(c, "len") {
@@ -486,6 +525,12 @@ func (f *gfFn) call(b *gfBuf, c *ast.CallExpr) string {
 		tm := f.tmp()
 		b.add("let %s ← %s %s", tm, cal.lean, strings.Join(args, " "))
 		return tm
+	}
+	if x := gfExtFind(f, c); x != nil { // gofn_c13.go
+		return x.emit(f, b, c)
+	}
+	if s, ok := f.callS5(b, c); ok {
+		return s
 	}
 	die("%s: call `%s` outside the subset (not a translated function, conversion or supported builtin)", f.at(c), c15Print(f.pk.fset, c.Fun))
 	return ""
@@ -584,7 +629,7 @@ func (f *gfFn) asciiVar(e ast.Expr) types.Object {
 	}
 	if id, ok := e.(*ast.Ident); ok {
 		if o := f.objOf(id); o != nil {
-			if _, ok := f.override[o]; ok {
+			if f.ascii[o] { // (not: any overridden variable - the receiver and translator-typed locals are overridden too)
 				return o
 			}
 		}
